@@ -237,7 +237,7 @@ def run(ctx):
     proof_ok = gen_ok and ctx.coq_proofs("Properties/C19.v")
     rows, e2e = [], []
     if ctx.harness_build("c19"):
-        args = ["-out", "cases.jsonl", "-seed", ctx.seed]
+        args = ["-out", "cases.jsonl", "-seed", ctx.seed, "-corpus", os.path.join(verif.ROOT, "corpus", "C19")]
         args += ["-ntrace", 150, "-nseq", 70, "-every", 5] if quick else ["-ntrace", 3000, "-nseq", 1200, "-every", 40]
         # end to end: the unmodified binary in a private network namespace
         sx = os.path.join(ctx.work, "sx")
